@@ -232,6 +232,13 @@ def run(chk):
     r05_adjacent(chk)
     r05_token(chk)
     r05_endtoken(chk)
+    # edit locality: after an edit the elements that were already placed keep their relative positions -- sort_new_items renumbers
+    # every placed element of a module in the same way (rows of C15's R15-table)
+    from . import sortrules
+    prog_ = mir.prog()
+    fids_ = [f for f in prog_.reachable(["sort::sort_new_items"]) if f.startswith("sort::") and prog_.bodies[f].file == "a2lfile/src/sort.rs"]
+    diag.compare(chk, "R05-place", "sort", sortrules.sort_table(prog_, fids_), "uid updates reachable from sort::sort_new_items with their control predicates, compared with the reviewed table", floor=15,
+                 fn_filter=lambda fn: fn in {re.sub(r"\{closure#\d+\}", "{closure}", mir.strip_generics(f)) for f in fids_} or fn.split("::{closure}")[0] in {mir.strip_generics(f) for f in fids_})
     diag.compare(chk, "R05-entry", "entry", entry_table(mir.prog()), "public entry points of lib.rs: the text handed to the scanner (wrapper of load_fragment, banner of write), parser set-up, calls with literal arguments; compared with the reviewed table", floor=20)
     from . import writertab
     writertab.compare(chk, "R05-writer", fn_filter=lambda fn: fn.split("::")[-1] in ("add_whitespace", "add_group", "add_str_raw", "add_quoted_string", "add_str"), floor=30)
